@@ -254,7 +254,7 @@ def _impl_one(case):
 # the property's oracle, on the real before / after files
 # ------------------------------------------------------------------------------------------------
 DEF_KINDS = ("FunctionDefinitionStart", "ClassDefinitionStart")
-PRIORITY = ["unaligned", "stray-arrow", "wrong-open-paren", "same-line-tail", "indent-under-4", "header-last-node", "async-docstring-removed", "header-resynth",
+PRIORITY = ["unaligned", "stray-arrow", "wrong-open-paren", "same-line-tail", "indent-sample-not-statement", "indent-under-4", "header-last-node", "async-docstring-removed", "header-resynth",
             "docstring-removed", "return-type-changed"]
 
 
@@ -451,6 +451,10 @@ def align(nb, na, parses):
             fl.append("same-line-tail")
         if _lead_ws(src_node["value"]) < 4:
             fl.append("indent-under-4")
+        sv = src_node["value"].lstrip("\n")
+        if sv.lstrip().startswith("#") or "\n" in sv[: _lead_ws(src_node["value"])]:
+            # the indentation is sampled from a comment line / a whitespace-only line, which need not be indented like the body
+            fl.append("indent-sample-not-statement")
         return fl
 
     while i < len(nb) or j < len(na):
@@ -539,11 +543,12 @@ def cause_of_invalid(nb, changes):
     return "none"
 
 
-def cause_for_def(changes, name, lineno):
+def cause_for_def(changes, name, lineno, body: bool):
+    """flags of the changes made to one definition: of its docstring slot when its body differs, of its header otherwise"""
     fl = []
     for c in changes:
         h = c["hdr"]
-        if h is not None and h["name"] == name and lineno is not None and h["start"] <= lineno <= h["stop"]:
+        if h is not None and h["name"] == name and lineno is not None and h["start"] <= lineno <= h["stop"] and (c["what"] != "header") == body:
             fl += c["flags"]
     return _first_flag(fl)
 
@@ -574,7 +579,7 @@ def oracle(src: str, r: dict):
     eb, ea = erase(ast.parse(src)), erase(ast.parse(after))
     if ast.dump(eb) != ast.dump(ea):
         for field, path, lineno, resynth in ast_diff(eb, ea):
-            cause = "header-resynth" if resynth else (cause_for_def(changes, path[-1], lineno) if path else "none")
+            cause = "header-resynth" if resynth else (cause_for_def(changes, path[-1], lineno, field in ("statements", "definitions")) if path else "none")
             fails.append(({"clause": "ast-erase", "field": field, "cause": cause},
                           "syntax tree differs after erase: %s of %s" % (field, ".".join(path) if path else "<module>")))
     cb, ca = comments_of(src), comments_of(after)
@@ -644,6 +649,8 @@ WITNESSES = [
     ("w-tail-docstring", ["C07-tail-statements", "C07-tail-lines"], 'def g(a):  # c\n  """Doc.\n\n  :param a: the a\n  :type a: ```int```\n  """\n  return a\n',
      ("rest", True, None), None),
     ("w-indent2", ["C07-indent-invalid"], 'def g(a):\n  """\n  Doc.\n\n  :param a: the a\n  :type a: ```int```\n  """\n  return a\n', ("rest", True, None), None),
+    ("w-comment-indent", ["C07-indent-sample-invalid"], "def g(a):\n# note\n    return a\n", ("rest", False, None), None),
+    ("w-blank-indent", ["C07-indent-sample-lines"], "def g(a):\n  \n    return a\n", ("rest", False, None), None),
     ("w-async-sole", ["C07-async-sole-docstring"], 'async def g(a):\n    """Doc."""\n\ndef h(a):\n' + REST_DOC + "    return a\n", ("rest", True, None), None),
     ("w-stub-atomic", [], "def s(a): ...\n\ndef h(a):\n" + REST_DOC + "    return a\n", ("rest", True, None), None),
 ]
